@@ -249,6 +249,13 @@ pub fn repo_init_on(repo: Repository<()>, key: &KeyMat, cfg: &RepoCfg) -> Rustic
     repo.init_with_config(&key.creds(), &KeyOptions::default(), config_for(key, cfg)?)
 }
 
+/// init of a hot/cold pair: the config handed to the library carries `is_hot` (as `Repository::init` does)
+pub fn repo_init_hotcold(repo: Repository<()>, key: &KeyMat, cfg: &RepoCfg) -> RusticResult<RepoOpen> {
+    let mut config = config_for(key, cfg)?;
+    config.is_hot = Some(true);
+    repo.init_with_config(&key.creds(), &KeyOptions::default(), config)
+}
+
 /// The config file of a new repository: id and chunker polynomial come from the key seed (so they
 /// do not depend on how much OS randomness some thread has consumed), everything else is applied
 /// and validated by the library's own `ConfigOptions::apply`. (`Repository::init` itself — random
